@@ -8,6 +8,7 @@ import (
 	"os"
 	"path/filepath"
 	"runtime/debug"
+	"strings"
 	"sync"
 	"sync/atomic"
 	"time"
@@ -64,8 +65,10 @@ type Server struct {
 	nextRow   uint64
 	nextTx    uint64
 	commitSeq uint64
-	obs       Observer
-	notifies  []Notify
+	// snapshotTxs: open transactions of sessions that asked for REPEATABLE READ / SERIALIZABLE
+	snapshotTxs int
+	obs         Observer
+	notifies    []Notify
 
 	schemaScript string
 
@@ -266,6 +269,8 @@ type conn struct {
 	portals map[string]*portal
 	skip    bool // extended protocol: discard until Sync after an error
 	dropped int32
+	// snapshotIso: the session's default isolation level is REPEATABLE READ or SERIALIZABLE
+	snapshotIso bool
 }
 
 func (c *conn) status() byte {
@@ -327,6 +332,12 @@ func (c *conn) run() {
 		case *pgproto3.CancelRequest:
 			return
 		case *pgproto3.StartupMessage:
+			// the isolation level a session asks for at start-up (pgx RuntimeParams) is honoured: snapshot semantics
+			// for repeatable read and serializable, read committed otherwise
+			switch strings.ToLower(strings.TrimSpace(m.(*pgproto3.StartupMessage).Parameters["default_transaction_isolation"])) {
+			case "repeatable read", "serializable":
+				c.snapshotIso = true
+			}
 		}
 		break
 	}
@@ -404,7 +415,10 @@ func (c *conn) run() {
 func (c *conn) beginImplicit() *Tx {
 	if c.tx == nil {
 		c.s.nextTx++
-		c.tx = &Tx{ID: c.s.nextTx, ConnID: c.id}
+		c.tx = &Tx{ID: c.s.nextTx, ConnID: c.id, Snapshot: c.snapshotIso}
+		if c.snapshotIso {
+			c.s.snapshotTxs++
+		}
 	}
 	return c.tx
 }
@@ -477,7 +491,10 @@ func (c *conn) runStatement(p *prepared, bp *boundParams) (rs *rowset, tag strin
 			c.endImplicit()
 		}
 		s.nextTx++
-		c.tx = &Tx{ID: s.nextTx, ConnID: c.id, Explicit: true}
+		c.tx = &Tx{ID: s.nextTx, ConnID: c.id, Explicit: true, Snapshot: c.snapshotIso}
+		if c.snapshotIso {
+			s.snapshotTxs++
+		}
 		return nil, "BEGIN", nil, f.Kind == FDropAfter
 	case sCommit:
 		if c.tx == nil || !c.tx.Explicit {
@@ -518,6 +535,9 @@ func (c *conn) runStatement(p *prepared, bp *boundParams) (rs *rowset, tag strin
 	if f.Kind == FError {
 		tx.Failed = true
 		return nil, "", faultErr(f), false
+	}
+	if tx.Snapshot && !tx.snapSet {
+		tx.snap, tx.snapSet = s.commitSeq, true // the snapshot is taken by the first statement, not by BEGIN
 	}
 	rs, tag, perr = s.execute(p, bp, tx)
 	if perr != nil {
